@@ -1,6 +1,6 @@
 """C07 - join and meet are the least upper and greatest lower bounds."""
 
-from vlib import gen, lib, tablecheck
+from vlib import gen, latcheck, lib, tablecheck
 from vlib.latcheck import Built, pairs, multisets
 from vlib.oracle import positions
 
@@ -55,6 +55,18 @@ def check_one(case, ctx, deep):
                       lambda: f'x <= y is {x <= y}, x|y is y: {(x | y) is y}, x&y is x: {(x & y) is x}, reference {le}')
             if i == j:
                 ctx.check((x | x) is x and (x & x) is x, 'idempotent', q, 'x|x or x&x is not x')
+        if rep == 0 and deep:
+            # the same binary operations on concepts whose context and lattice objects were dropped by the caller
+            orphan = latcheck.orphans(case, ctx, plain)
+            for i, j in pairs(k, rnd, limit=12, sample=40) if orphan else ():
+                x, y = orphan[i], orphan[j]
+                q = lambda: {'table': plain, 'orphans': True, 'pair': [list(positions(cs[i][0])), list(positions(cs[j][0]))]}
+                wj, wm = orphan[ref.join([i, j])], orphan[ref.meet([i, j])]
+                for site, got, want in (('orphans/concept|', ctx.call('orphans/concept|', q, lambda: x | y), wj),
+                                        ('orphans/concept.join', ctx.call('orphans/concept.join', q, x.join, y), wj),
+                                        ('orphans/concept&', ctx.call('orphans/concept&', q, lambda: x & y), wm),
+                                        ('orphans/concept.meet', ctx.call('orphans/concept.meet', q, x.meet, y), wm)):
+                    ctx.check(got is want, site, q, lambda: f'{site} of {x.extent} and {y.extent} = {got!r}, want {want!r}')
         for _ in range(min(30, k * k)):
             h, i, j = (rnd.randrange(k) for _ in range(3))
             x, y, z = by[h], by[i], by[j]
